@@ -21,7 +21,8 @@ Record case := Case {
   c_jsL : list wop;                (* recorded: the same on the loader's document *)
   c_text_safe : bool;              (* every configured suffix is identifier-like *)
   c_tdts : text_exports;           (* from the declaration file text *)
-  c_tjsL : text_exports            (* from the loader's JS text *)
+  c_tjsL : text_exports;           (* from the loader's JS text (the loader's own print_js) *)
+  c_cli : option text_exports      (* from the file the real `nitrogql-cli generate` wrote, when the case was also run end to end *)
 }.
 
 Definition ops_eqb := list_eqb wop_eqb.
@@ -64,6 +65,10 @@ Definition agree (c : case) : bool :=
   && (if c_text_safe c then
         text_agrees (dts_of_config (c_cfg c) d (c_B c)) (c_tdts c)
         && text_agrees (js_of_config (c_cfg c) (loader_view d) (c_B c)) (c_tjsL c)
+        && match c_cli c with
+           | Some t => text_agrees (dts_of_config (c_cfg c) d (c_B c)) t
+           | None => true
+           end
       else true).
 
 (** * The property on the implementation's outputs *)
@@ -72,7 +77,6 @@ Definition export_eqb (a b : ename * pos) : bool :=
   ename_eqb (fst a) (fst b) && pos_eqb (snd a) (snd b).
 Definition mem_export (x : ename * pos) (l : list (ename * pos)) : bool := existsb (export_eqb x) l.
 Definition incl_exports (a b : list (ename * pos)) : bool := forallb (fun x => mem_export x b) a.
-Definition zero_export (x : ename * pos) : ename * pos := (fst x, zero_file (snd x)).
 
 Fixpoint lookup_id (b : str) (ids : list (str * rid)) : option rid :=
   match ids with
@@ -119,4 +123,8 @@ Definition holds (c : case) : bool :=
   (* the same at the level of the generated texts *)
   && (if c_text_safe c then
         subset_str (fst (c_tdts c)) (fst (c_tjsL c)) && list_eqb str_eqb (snd (c_tdts c)) (snd (c_tjsL c))
+        && match c_cli c with
+           | Some t => subset_str (fst t) (fst (c_tjsL c)) && list_eqb str_eqb (snd t) (snd (c_tjsL c))
+           | None => true
+           end
       else true).
